@@ -20,3 +20,4 @@ import RenetVerif.Lemmas.SrcEquiv.NcAddr
 import RenetVerif.Lemmas.SrcEquiv.NcConnToken
 import RenetVerif.Lemmas.SrcEquiv.Conn
 import RenetVerif.Lemmas.SrcEquiv.ConnSend
+import RenetVerif.Lemmas.SrcEquiv.ConnRecv
